@@ -3,6 +3,7 @@ package main
 // Further structural rules of the E1/E7 family.
 
 import (
+	"fmt"
 	"go/ast"
 	"go/token"
 	"go/types"
@@ -243,6 +244,72 @@ func runCrossFile(p *Prog, r *Report) {
 				}
 				return false
 			})
+			fileGuard := func(g *Func, at ast.Node, rc string) bool {
+				return g.GuardsAt(at).Holds(func(a *Atom) bool {
+					if a.E == nil {
+						return false
+					}
+					be, isBe := ast.Unparen(a.E).(*ast.BinaryExpr)
+					if !isBe || (be.Op != token.EQL && be.Op != token.NEQ) || (be.Op == token.EQL) != a.Pol {
+						return false
+					}
+					for _, side := range []ast.Expr{be.X, be.Y} {
+						if s2, ok := ast.Unparen(side).(*ast.SelectorExpr); ok && s2.Sel.Name == "Filename" {
+							if c := g.Canon(s2.X); c == rc || c == strings.TrimSuffix(rc, ".Ptr()") {
+								return true
+							}
+						}
+					}
+					return false
+				})
+			}
+			if !ok2 && fn.Lit == nil && fn.Obj != nil && !fn.Obj.Exported() {
+				// an unexported helper handed the range: every caller compares the Filename first
+				if id, isId := ast.Unparen(sel.X).(*ast.Ident); isId {
+					po := info.ObjectOf(id)
+					sig := fn.Obj.Type().(*types.Signature)
+					pi := -1
+					for k := 0; k < sig.Params().Len(); k++ {
+						if sig.Params().At(k) == po {
+							pi = k
+						}
+					}
+					if pi >= 0 && len(fn.Assignments(po)) == 0 && !sig.Variadic() {
+						nSites, all, escapes := 0, true, false
+						for _, g := range p.Funcs {
+							if g.Body == nil || g.Pkg != fn.Pkg {
+								continue
+							}
+							ginfo := g.Info()
+							ast.Inspect(g.Body, func(n ast.Node) bool {
+								if lit, ok := n.(*ast.FuncLit); ok && lit != g.Lit {
+									return false
+								}
+								switch y := n.(type) {
+								case *ast.CallExpr:
+									if calleeOf(ginfo, y) == fn.Obj && pi < len(y.Args) {
+										nSites++
+										if arc := g.Canon(y.Args[pi]); arc == "" || !fileGuard(g, y, arc) {
+											all = false
+										}
+									}
+								case *ast.Ident:
+									if ginfo.Uses[y] == types.Object(fn.Obj) {
+										if cs, isCall := p.Parent(y).(*ast.CallExpr); !isCall || cs.Fun != ast.Expr(y) {
+											escapes = true
+										}
+									}
+								}
+								return true
+							})
+						}
+						if nSites > 0 && all && !escapes {
+							r.Add("E6.cross-file-compare", fn.Name, construct, p.Pos(call), OK, fmt.Sprintf("every one of the %d call sites of this helper compares the range's Filename first", nSites), true)
+							return true
+						}
+					}
+				}
+			}
 			if ok2 {
 				r.Add("E6.cross-file-compare", fn.Name, construct, p.Pos(call), OK, "byte containment is tested only after the range's Filename was compared", true)
 			} else {
